@@ -75,6 +75,24 @@ Proof.
   apply forallb_lt_last; [apply (i_last_in _ _ _ _ I Hc)|apply (i_last_ub _ _ _ _ I Hc)].
 Qed.
 
+Lemma forallb_le_last : forall (l : list Z) (m p tau : Z),
+  In m l -> (forall r, In r l -> r <= m) ->
+  forallb (fun r => r + p <=? tau) l = (m + p <=? tau).
+Proof.
+  intros l m p tau Hin Hub.
+  destruct (m + p <=? tau) eqn:E.
+  - apply forallb_forall. intros r Hr. apply Z.leb_le. apply Z.leb_le in E. specialize (Hub r Hr). lia.
+  - destruct (forallb (fun r => r + p <=? tau) l) eqn:F; [|reflexivity].
+    rewrite forallb_forall in F. specialize (F m Hin). cbv beta in F. congruence.
+Qed.
+
+Lemma quiet_at_last : forall c t0 s past tau, Inv c t0 s past -> closed s = false ->
+  quiet_at (P_of c t0) past tau = negb (period c =? 0) && (last s + period c <=? tau).
+Proof.
+  intros c t0 s past tau I Hc. unfold quiet_at. cbn [p_period p_t0 P_of]. f_equal.
+  apply forallb_le_last; [apply (i_last_in _ _ _ _ I Hc)|apply (i_last_ub _ _ _ _ I Hc)].
+Qed.
+
 Lemma has_strike_cancel : forall s x, is_strike x = true -> has_strike (cancel_obs s ++ [x]) = true.
 Proof. intros s x Hx. unfold cancel_obs, has_strike. destruct (pending s); cbn; rewrite Hx; reflexivity. Qed.
 
@@ -103,7 +121,7 @@ Lemma check_ok : forall c t0 s past e tau ok,
 Proof.
   intros c t0 s past e tau ok W I Hc Ht s1 o Hchk.
   unfold judge. rewrite <- (i_closed _ _ _ _ I), Hc, Ht.
-  rewrite (idle_at_last _ _ _ _ tau I Hc).
+  rewrite (idle_at_last _ _ _ _ tau I Hc), (quiet_at_last _ _ _ _ tau I Hc).
   cbn [p_ka p_max P_of].
   pose proof (i_token _ _ _ _ I Hc) as Htok.
   unfold check in Hchk.
@@ -115,9 +133,10 @@ Proof.
   { rewrite Z.gtb_ltb. reflexivity. }
   rewrite Hgt in Hchk.
   destruct (last s + period c <? tau) eqn:Eidle.
-  2:{ inversion Hchk; subst s1 o. cbn. repeat split; auto;
+  2:{ inversion Hchk; subst s1 o. cbn. destruct (last s + period c <=? tau); cbn; repeat split; auto;
       match goal with K : ka c = true |- _ => destruct (i_fails _ _ _ _ I Hc K) as [A B]; lia end. }
-  cbn [negb].
+  assert (Eq : (last s + period c <=? tau) = true) by (apply Z.leb_le; apply Z.ltb_lt in Eidle; lia).
+  rewrite Eq. cbn [negb].
   unfold on_inactive in Hchk. destruct (ka c) eqn:K.
   2:{ inversion Hchk; subst s1 o. cbn. repeat split; auto; discriminate. }
   cbn [negb].
@@ -310,22 +329,34 @@ Section Clauses.
     rewrite Hsplit in S. apply judge_all_split in S. rewrite app_nil_r in S. exact S.
   Qed.
 
+  Lemma idle_intro : forall tau, period c <> 0 ->
+    (forall r, In r (t0 :: rx_all (rev pre)) -> r + period c < tau) ->
+    idle_at (P_of c t0) (rev pre) tau = true /\ quiet_at (P_of c t0) (rev pre) tau = true.
+  Proof.
+    intros tau Hp Hidle. unfold idle_at, quiet_at. cbn [p_period p_t0 P_of].
+    destruct (Z.eqb_spec (period c) 0); [contradiction|]. cbn [negb andb]. split.
+    - apply forallb_forall. intros r Hr. apply Z.ltb_lt. apply Hidle. exact Hr.
+    - apply forallb_forall. intros r Hr. apply Z.leb_le. specialize (Hidle r Hr). lia.
+  Qed.
+
   (* the monitor acts (ping or close) only at a tick, only on an open connection,
-     and only if no message was received for a full period before the tick *)
+     and only if the latest message (and every earlier one) is at least a full
+     period old at the tick *)
   Lemma acts_only_if_idle : has_strike o = true ->
     was_closed (rev pre) = false /\
     exists tau, tick_time (P_of c t0) e = Some tau /\ period c <> 0 /\
-      forall r, In r (t0 :: rx_all (rev pre)) -> r + period c < tau.
+      quiet_at (P_of c t0) (rev pre) tau = true /\
+      forall r, In r (t0 :: rx_all (rev pre)) -> r + period c <= tau.
   Proof.
     intros Hs. pose proof J as J'. unfold judge in J'. rewrite Hs in J'.
     destruct (was_closed (rev pre)); [discriminate|]. split; [reflexivity|].
     destruct (tick_time (P_of c t0) e) as [tau|]; [|discriminate].
     exists tau. split; [reflexivity|].
-    destruct (idle_at (P_of c t0) (rev pre) tau) eqn:Ei.
-    - unfold idle_at in Ei. cbn [p_period p_t0 P_of] in Ei. apply andb_prop in Ei. destruct Ei as [E1 E2].
-      split.
+    destruct (quiet_at (P_of c t0) (rev pre) tau) eqn:Eq.
+    - unfold quiet_at in Eq. cbn [p_period p_t0 P_of] in Eq. apply andb_prop in Eq. destruct Eq as [E1 E2].
+      split; [|split; [reflexivity|]].
       + intros E0. rewrite E0 in E1. discriminate.
-      + intros r Hr. rewrite forallb_forall in E2. specialize (E2 r Hr). apply Z.ltb_lt in E2. exact E2.
+      + intros r Hr. rewrite forallb_forall in E2. specialize (E2 r Hr). apply Z.leb_le in E2. exact E2.
     - cbn [negb] in J'. destruct (has_close o); discriminate.
   Qed.
 
@@ -337,16 +368,10 @@ Section Clauses.
     has_strike o = true /\ (ka c = false -> has_close o = true).
   Proof.
     intros tau Hc Ht Hp Hidle. pose proof J as J'. unfold judge in J'. rewrite Hc, Ht in J'.
-    assert (Ei : idle_at (P_of c t0) (rev pre) tau = true).
-    { unfold idle_at. cbn [p_period p_t0 P_of]. apply andb_true_intro. split.
-      - destruct (Z.eqb_spec (period c) 0); [contradiction|reflexivity].
-      - apply forallb_forall. intros r Hr. apply Z.ltb_lt. apply Hidle. exact Hr. }
-    rewrite Ei in J'. cbn [negb p_ka P_of] in J'.
-    destruct (ka c); cbn [negb] in J'.
-    - destruct (has_strike o); [|discriminate]. split; [reflexivity|discriminate].
-    - destruct (has_close o) eqn:Hcl; [|discriminate]. split; [|reflexivity].
-      unfold has_close in Hcl. unfold has_strike. apply existsb_exists in Hcl. apply existsb_exists.
-      destruct Hcl as [x [Hx Hx']]. exists x. split; [exact Hx|]. destruct x; try discriminate. reflexivity.
+    destruct (idle_intro tau Hp Hidle) as [Ei Eq].
+    rewrite Ei, Eq in J'. cbn [negb p_ka P_of] in J'.
+    destruct (has_strike o); [|discriminate]. cbn [negb] in J'. split; [reflexivity|].
+    intros K. rewrite K in J'. cbn [negb] in J'. destruct (has_close o); [reflexivity|discriminate].
   Qed.
 
   (* keep-alive: a close needs at least max failures before it since the last
@@ -354,13 +379,9 @@ Section Clauses.
   Lemma keepalive_close_exact : ka c = true -> has_strike o = true ->
     (has_close o = true <-> maxr c <= failures (rev pre)).
   Proof.
-    intros K Hs. destruct (acts_only_if_idle Hs) as [Hc [tau [Ht [Hp Hidle]]]].
-    pose proof J as J'. unfold judge in J'. rewrite Hc, Ht, Hs in J'.
-    assert (Ei : idle_at (P_of c t0) (rev pre) tau = true).
-    { unfold idle_at. cbn [p_period p_t0 P_of]. apply andb_true_intro. split.
-      - destruct (Z.eqb_spec (period c) 0); [contradiction|reflexivity].
-      - apply forallb_forall. intros r Hr. apply Z.ltb_lt. apply Hidle. exact Hr. }
-    rewrite Ei in J'. cbn [negb p_ka p_max P_of] in J'. rewrite K in J'. cbn [negb] in J'.
+    intros K Hs. destruct (acts_only_if_idle Hs) as [Hc [tau [Ht [Hp [Eq Hq]]]]].
+    pose proof J as J'. unfold judge in J'. rewrite Hc, Ht, Hs, Eq in J'.
+    cbn [negb p_ka p_max P_of] in J'. rewrite K in J'. cbn [negb] in J'.
     destruct (has_close o); destruct (Z.leb_spec (maxr c) (failures (rev pre))); try discriminate; split; intros; try lia; try reflexivity; try discriminate.
   Qed.
 End Clauses.
@@ -407,3 +428,14 @@ Qed.
 
 Lemma late_pong_no_reset : forall older g o, g <> cur_gen older -> is_reset older (PongCb g, o) = false.
 Proof. intros older g o H. cbn [is_reset]. apply Z.eqb_neq. exact H. Qed.
+
+(* the code's comparison is strict: a tick acts only when it is later than
+   lastActivity + period *)
+Lemma check_acts_strict : forall c s tau ok, snd (check c s tau ok) <> [] ->
+  period c <> 0 /\ last s + period c < tau.
+Proof.
+  intros c s tau ok H. unfold check in H.
+  destruct (Z.eqb_spec (period c) 0) as [E|E]; [cbn in H; congruence|].
+  split; [exact E|]. rewrite Z.gtb_ltb in H.
+  destruct (Z.ltb_spec (last s + period c) tau) as [L|L]; [exact L|cbn in H; congruence].
+Qed.
